@@ -425,6 +425,42 @@ def explore(kind, env, tier, max_depth):
     return total, len(seen), closed, depth, len(alpha)
 
 
+def check_sampling_keeps_distribution(env, acc):
+    """A coarse truncation leaves a distribution whose total is visibly below 1, so sampling re-normalises what it
+    hands to the generator; the distribution the object REPORTS must stay the one a fresh object reports."""
+    from ..circuit_ops import build
+    old = lw.settings.sampler_probability_threshold
+    lw.settings.sampler_probability_threshold = 2e-3
+    try:
+        for rc, vin in (({"name": "weak3", "n": 3, "ops": [("bs", 0, 1, 0.999, "Rx", 0), ("bs", 1, 2, 0.9992, "H", 0),
+                                                            ("ps", 0, env.PH[0], 0)]}, (1, 1, 0)),
+                        ({"name": "weak3_herald", "n": 3, "ops": [("bs", 0, 1, 0.9985, "Rx", 0), ("bs", 2, 1, 0.9991, "Rx", 0),
+                                                                   ("her", 1, 2, 2)]}, (1, 0))):
+            c, _ = build(rc, env)
+            for calls in (("sample_N_inputs",), ("sample_N_outputs",), ("sample_N_inputs", "sample_N_inputs"),
+                          ("sample_N_outputs", "sample_N_inputs")):
+                case = {"scenario": "sampling_keeps_distribution", "recipe": rc, "input": vin, "calls": calls, "seed": env.seed}
+                acc.tick("executions"); acc.tick("transitions", len(calls))
+                s = emu.Sampler(c, lw.State(list(vin)))
+                d0 = {tuple(k.s): float(v) for k, v in s.probability_distribution.items()}
+                try:
+                    for m in calls:
+                        getattr(s, m)(5, seed=3)
+                except Exception as e:  # noqa: BLE001
+                    acc.violation("sampling_raises", case, {"error": repr(e)})
+                    continue
+                d1 = {tuple(k.s): float(v) for k, v in s.probability_distribution.items()}
+                df = {tuple(k.s): float(v) for k, v in emu.Sampler(c, lw.State(list(vin))).probability_distribution.items()}
+                if d1 != df or d0 != df:
+                    acc.violation("differs_from_fresh_object", case,
+                                  {"before_sampling": d0, "after_sampling": d1, "fresh": df})
+                acc.state("renorm", rc["name"], calls)
+                if abs(sum(df.values()) - 1) > 1e-6:
+                    acc.nontriv("renorm", rc["name"], calls)
+    finally:
+        lw.settings.sampler_probability_threshold = old
+
+
 def run(tier, seed):
     env = Env(seed)
     acc = kernel.Acc()
@@ -438,6 +474,7 @@ def run(tier, seed):
         bounds[kind] = {"states": n, "closed": closed, "depth": d, "alphabet": na}
         if not closed:
             caps.append("%s: depth bound %d reached before closure (%d states)" % (kind, md, n))
+    check_sampling_keeps_distribution(env, acc)
     acc.sample({"object": "Sampler", "history": [("circuit", "b"), ("read",), ("circuit", "a"), ("src_inplace", "brightness", 1.0)],
                 "observed": ["probability_distribution", "law of sample()", "law of sample_N_inputs(1)",
                              "law handed to rng.choice by sample_N_outputs(1)"]})
@@ -449,7 +486,8 @@ def run(tier, seed):
                 "complete vars() of the object; on every state every observation (distribution; exact laws of the "
                 "sampling methods via E3; analysis results) must equal that of a freshly built object in the same "
                 "configuration, sampling must work whenever reading works, and an analysis result must not carry "
-                "error_rate unless expected was passed to that call. distinct_nontrivial = distinct (object, "
+                "error_rate unless expected was passed to that call. Plus: under a coarse truncation (distribution total "
+                "visibly below 1) sampling calls must not change the reported distribution. distinct_nontrivial = distinct (object, "
                 "configuration, verdict) reached by histories of length >= 2.",
         "exhaustive": not caps,
         "bounds": bounds,
@@ -464,6 +502,9 @@ def replay(w, acc):
     from .c01 import _tup
     case = w["case"]
     env = Env(case.get("seed", 0))
+    if case.get("scenario") == "sampling_keeps_distribution":
+        check_sampling_keeps_distribution(env, acc)
+        return
     kind = case["object"]
     hist = tuple(_tup(o) for o in case["history"])
     build_h, observe, fresh = {"Sampler": (sampler_build, sampler_observe, sampler_fresh),
